@@ -17,18 +17,31 @@ theorem minSafe?_eq_some (n : Nat) (h : n < 2^64) : minSafe? n = some (minSafe n
   split_ifs <;> rfl
 
 theorem minSafe_eq_u8 (n : Nat) (h : n < 2^8) : minSafe n = .u8 := by
-  unfold minSafe minSafe?; rw [if_pos h]; rfl
+  unfold minSafe; rw [if_pos h]
 
 theorem minSafe_eq_u16 (n : Nat) (h1 : 2^8 ≤ n) (h : n < 2^16) : minSafe n = .u16 := by
-  unfold minSafe minSafe?; rw [if_neg (by omega), if_pos h]; rfl
+  unfold minSafe; rw [if_neg (by omega), if_pos h]
 
 theorem minSafe_eq_u32 (n : Nat) (h1 : 2^16 ≤ n) (h : n < 2^32) : minSafe n = .u32 := by
-  unfold minSafe minSafe?; rw [if_neg (by omega), if_neg (by omega), if_pos h]; rfl
+  unfold minSafe; rw [if_neg (by omega), if_neg (by omega), if_pos h]
 
-theorem minSafe_eq_u64 (n : Nat) (h1 : 2^32 ≤ n) : minSafe n = .u64 := by
-  unfold minSafe minSafe?
-  rw [if_neg (by omega), if_neg (by omega), if_neg (by omega)]
-  split_ifs <;> rfl
+theorem minSafe_eq_u64 (n : Nat) (h1 : 2^32 ≤ n) (h : n < 2^64) : minSafe n = .u64 := by
+  unfold minSafe
+  rw [if_neg (by omega), if_neg (by omega), if_neg (by omega), if_pos h]
+
+theorem minSafe_eq_big (n : Nat) (h : 2^64 ≤ n) : minSafe n = .big := by
+  unfold minSafe
+  rw [if_neg (by omega), if_neg (by omega), if_neg (by omega), if_neg (by omega)]
+
+/-- the model's unbounded counter stands exactly for the `ValueError` range of `min_safe_uint` -/
+theorem minSafe_ne_big_iff (n : Nat) : minSafe n ≠ .big ↔ n < 2^64 := by
+  constructor
+  · intro h
+    by_contra hn
+    exact h (minSafe_eq_big n (by omega))
+  · intro h
+    unfold minSafe
+    split_ifs <;> simp
 
 /-- the four ranges of `min_safe_uint` (below the bigint range) -/
 theorem minSafe_eq_iff (n : Nat) (h : n < 2^64) :
@@ -42,7 +55,7 @@ theorem minSafe_eq_iff (n : Nat) (h : n < 2^64) :
     · rw [minSafe_eq_u16 n (by omega) h16]; simp; omega
     · by_cases h32 : n < 2^32
       · rw [minSafe_eq_u32 n (by omega) h32]; simp; omega
-      · rw [minSafe_eq_u64 n (by omega)]; simp; omega
+      · rw [minSafe_eq_u64 n (by omega) h]; simp; omega
 
 /-- the chosen width holds the value -/
 theorem minSafe_bits_lt (n : Nat) (h : n < 2^64) : n < 2 ^ (minSafe n).bits := by
@@ -52,37 +65,48 @@ theorem minSafe_bits_lt (n : Nat) (h : n < 2^64) : n < 2 ^ (minSafe n).bits := b
     · rw [minSafe_eq_u16 n (by omega) h16]; exact h16
     · by_cases h32 : n < 2^32
       · rw [minSafe_eq_u32 n (by omega) h32]; exact h32
-      · rw [minSafe_eq_u64 n (by omega)]; exact h
+      · rw [minSafe_eq_u64 n (by omega) h]; exact h
 
-/-- ... and it is the narrowest width that does -/
+/-- ... and it is the narrowest of the four NumPy widths that does -/
 theorem minSafe_narrowest (n : Nat) (h : n < 2^64) (w : W) (hw : n < 2 ^ w.bits) :
     (minSafe n).bits ≤ w.bits := by
   by_cases h8 : n < 2^8
-  · rw [minSafe_eq_u8 n h8]; cases w <;> simp [W.bits]
+  · rw [minSafe_eq_u8 n h8]; cases w <;> simp [W.bits] at hw ⊢
   · by_cases h16 : n < 2^16
     · rw [minSafe_eq_u16 n (by omega) h16]
       cases w <;> simp [W.bits] at hw ⊢; omega
     · by_cases h32 : n < 2^32
       · rw [minSafe_eq_u32 n (by omega) h32]
         cases w <;> simp [W.bits] at hw ⊢ <;> omega
-      · rw [minSafe_eq_u64 n (by omega)]
+      · rw [minSafe_eq_u64 n (by omega) h]
         cases w <;> simp [W.bits] at hw ⊢ <;> omega
 
 theorem minSafe_bits_mono {m n : Nat} (hmn : m ≤ n) (h : n < 2^64) :
     (minSafe m).bits ≤ (minSafe n).bits :=
   minSafe_narrowest m (by omega) (minSafe n) (lt_of_le_of_lt hmn (minSafe_bits_lt n h))
 
-/-- no wrap-around: a value bounded by the count survives the cast to `minSafe count` -/
-theorem wrap_of_le (n x : Nat) (h : n < 2^64) (hx : x ≤ n) : wrap (minSafe n) x = x := by
-  unfold wrap
-  exact Nat.mod_eq_of_lt (lt_of_le_of_lt hx (minSafe_bits_lt n h))
+theorem wrap_big (x : Nat) : wrap .big x = x := rfl
 
-theorem map_wrap_of_le (n : Nat) (h : n < 2^64) (l : List Nat) (hl : ∀ x ∈ l, x ≤ n) :
+theorem wrap_eq_mod (w : W) (hw : w ≠ .big) (x : Nat) : wrap w x = x % 2 ^ w.bits := by
+  cases w <;> first | rfl | exact absurd rfl hw
+
+theorem wrap_wrap (w : W) (x : Nat) : wrap w (wrap w x) = wrap w x := by
+  cases w <;> simp [wrap]
+
+/-- no wrap-around: a value bounded by the count survives the cast to `minSafe count`
+(for counts ≥ 2^64 the model's counter is unbounded) -/
+theorem wrap_of_le (n x : Nat) (hx : x ≤ n) : wrap (minSafe n) x = x := by
+  by_cases h : n < 2^64
+  · rw [wrap_eq_mod _ ((minSafe_ne_big_iff n).mpr h)]
+    exact Nat.mod_eq_of_lt (lt_of_le_of_lt hx (minSafe_bits_lt n h))
+  · rw [minSafe_eq_big n (by omega)]; rfl
+
+theorem map_wrap_of_le (n : Nat) (l : List Nat) (hl : ∀ x ∈ l, x ≤ n) :
     l.map (wrap (minSafe n)) = l := by
   induction l with
   | nil => rfl
   | cons x l ih =>
-    rw [List.map_cons, wrap_of_le n x h (hl x (by simp)), ih (fun y hy => hl y (by simp [hy]))]
+    rw [List.map_cons, wrap_of_le n x (hl x (by simp)), ih (fun y hy => hl y (by simp [hy]))]
 
 /-! ### the invariant -/
 
@@ -147,10 +171,9 @@ theorem exact_addLs_le (data : Nat → Row) (c s : Clu) (hc : Exact data c) (hs 
   have := mem_colSum_le _ x hx
   rwa [List.length_map, List.length_append, ← hc.n_eq, ← hs.n_eq] at this
 
-theorem mergedSummary_exact (data : Nat → Row) (c s : Clu) (hc : Exact data c) (hs : Exact data s)
-    (hn : c.n + s.n < 2^64) :
+theorem mergedSummary_exact (data : Nat → Row) (c s : Clu) (hc : Exact data c) (hs : Exact data s) :
     (c.mergedSummary s).ls = addLs c.ls s.ls ∧ (c.mergedSummary s).n = c.n + s.n :=
-  ⟨map_wrap_of_le _ hn _ (exact_addLs_le data c s hc hs), rfl⟩
+  ⟨map_wrap_of_le _ _ (exact_addLs_le data c s hc hs), rfl⟩
 
 theorem merge_ids (c s : Clu) : (c.merge s).ids = c.ids ++ s.ids := rfl
 
@@ -158,28 +181,25 @@ theorem merge_n (c s : Clu) : (c.merge s).n = c.n + s.n := rfl
 
 theorem merge_w (c s : Clu) : (c.merge s).w = minSafe (c.n + s.n) := rfl
 
-theorem merge_unbounded (data : Nat → Row) (c s : Clu) (hc : Exact data c) (hs : Exact data s)
-    (hn : c.n + s.n < 2^64) :
+theorem merge_unbounded (data : Nat → Row) (c s : Clu) (hc : Exact data c) (hs : Exact data s) :
     (c.merge s).ls = addLs c.ls s.ls ∧ (c.merge s).n = c.n + s.n := by
   refine ⟨?_, rfl⟩
   show ((c.mergedSummary s).ls).map (wrap (minSafe (c.n + s.n))) = _
-  rw [(mergedSummary_exact data c s hc hs hn).1]
-  exact map_wrap_of_le _ hn _ (exact_addLs_le data c s hc hs)
+  rw [(mergedSummary_exact data c s hc hs).1]
+  exact map_wrap_of_le _ _ (exact_addLs_le data c s hc hs)
 
-theorem merge_cent (data : Nat → Row) (c s : Clu) (hc : Exact data c) (hs : Exact data s)
-    (hn : c.n + s.n < 2^64) :
+theorem merge_cent (data : Nat → Row) (c s : Clu) (hc : Exact data c) (hs : Exact data s) :
     (c.merge s).cent = centroidFromSum (addLs c.ls s.ls) (c.n + s.n) := by
   show centroidFromSum (c.mergedSummary s).ls (c.n + s.n) = _
-  rw [(mergedSummary_exact data c s hc hs hn).1]
+  rw [(mergedSummary_exact data c s hc hs).1]
 
-theorem exact_merge (data : Nat → Row) (c s : Clu) (hc : Exact data c) (hs : Exact data s)
-    (hn : c.n + s.n < 2^64) : Exact data (c.merge s) where
+theorem exact_merge (data : Nat → Row) (c s : Clu) (hc : Exact data c) (hs : Exact data s) : Exact data (c.merge s) where
   n_eq := by
     rw [merge_ids, merge_n, List.length_append, ← hc.n_eq, ← hs.n_eq]
   ls_eq := by
-    rw [(merge_unbounded data c s hc hs hn).1, merge_ids, exact_addLs data c s hc hs]
+    rw [(merge_unbounded data c s hc hs).1, merge_ids, exact_addLs data c s hc hs]
   cent_eq := by
-    rw [merge_cent data c s hc hs hn, (merge_unbounded data c s hc hs hn).1, merge_n]
+    rw [merge_cent data c s hc hs, (merge_unbounded data c s hc hs).1, merge_n]
   w_eq := rfl
 
 theorem update_ids (c s : Clu) : (c.update s).ids = c.ids ++ s.ids := rfl
@@ -188,27 +208,24 @@ theorem update_n (c s : Clu) : (c.update s).n = c.n + s.n := rfl
 
 theorem update_w (c s : Clu) : (c.update s).w = minSafe (c.n + s.n) := rfl
 
-theorem update_unbounded (data : Nat → Row) (c s : Clu) (hc : Exact data c) (hs : Exact data s)
-    (hn : c.n + s.n < 2^64) :
+theorem update_unbounded (data : Nat → Row) (c s : Clu) (hc : Exact data c) (hs : Exact data s) :
     (c.update s).ls = addLs c.ls s.ls ∧ (c.update s).n = c.n + s.n :=
-  ⟨map_wrap_of_le _ hn _ (exact_addLs_le data c s hc hs), rfl⟩
+  ⟨map_wrap_of_le _ _ (exact_addLs_le data c s hc hs), rfl⟩
 
-theorem exact_update (data : Nat → Row) (c s : Clu) (hc : Exact data c) (hs : Exact data s)
-    (hn : c.n + s.n < 2^64) : Exact data (c.update s) where
+theorem exact_update (data : Nat → Row) (c s : Clu) (hc : Exact data c) (hs : Exact data s) : Exact data (c.update s) where
   n_eq := by
     rw [update_ids, update_n, List.length_append, ← hc.n_eq, ← hs.n_eq]
   ls_eq := by
-    rw [(update_unbounded data c s hc hs hn).1, update_ids, exact_addLs data c s hc hs]
+    rw [(update_unbounded data c s hc hs).1, update_ids, exact_addLs data c s hc hs]
   cent_eq := rfl
   w_eq := rfl
 
-/-- on exact summaries below the bigint range `update` and `merge` build the same entry -/
-theorem update_eq_merge (data : Nat → Row) (c s : Clu) (hc : Exact data c) (hs : Exact data s)
-    (hn : c.n + s.n < 2^64) : c.update s = c.merge s := by
-  have hu := exact_update data c s hc hs hn
-  have hm := exact_merge data c s hc hs hn
+/-- on exact summaries `update` and `merge` build the same entry -/
+theorem update_eq_merge (data : Nat → Row) (c s : Clu) (hc : Exact data c) (hs : Exact data s) : c.update s = c.merge s := by
+  have hu := exact_update data c s hc hs
+  have hm := exact_merge data c s hc hs
   have e1 : (c.update s).ls = (c.merge s).ls := by
-    rw [(update_unbounded data c s hc hs hn).1, (merge_unbounded data c s hc hs hn).1]
+    rw [(update_unbounded data c s hc hs).1, (merge_unbounded data c s hc hs).1]
   have e2 : (c.update s).cent = (c.merge s).cent := by
     rw [hu.cent_eq, hm.cent_eq, e1]; rfl
   have : ∀ a b : Clu, a.n = b.n → a.w = b.w → a.ls = b.ls → a.ids = b.ids → a.cent = b.cent →
@@ -220,29 +237,24 @@ theorem update_eq_merge (data : Nat → Row) (c s : Clu) (hc : Exact data c) (hs
 
 theorem exact_foldl_update (data : Nat → Row) (cs : List Clu) :
     ∀ (c0 : Clu), Exact data c0 → (∀ c ∈ cs, Exact data c) →
-      c0.n + (cs.map (·.n)).sum < 2^64 →
       Exact data (cs.foldl Clu.update c0) ∧
       (cs.foldl Clu.update c0).ids = c0.ids ++ (cs.map (·.ids)).flatten ∧
       (cs.foldl Clu.update c0).n = c0.n + (cs.map (·.n)).sum := by
   induction cs with
-  | nil => intro c0 h0 _ _; simp [h0]
+  | nil => intro c0 h0 _; simp [h0]
   | cons c cs ih =>
-    intro c0 h0 h hn
-    rw [List.map_cons, List.sum_cons] at hn
+    intro c0 h0 h
     have hc : Exact data c := h c (by simp)
-    have h1 : Exact data (c0.update c) := exact_update data c0 c h0 hc (by omega)
+    have h1 : Exact data (c0.update c) := exact_update data c0 c h0 hc
     obtain ⟨a, b, d⟩ := ih (c0.update c) h1 (fun x hx => h x (by simp [hx]))
-      (by rw [update_n]; omega)
     refine ⟨a, ?_, ?_⟩
     · rw [List.foldl_cons, b, update_ids]; simp
     · rw [List.foldl_cons, d, update_n]; simp; omega
 
-theorem exact_trackOf (data : Nat → Row) (cs : List Clu) (h : ∀ c ∈ cs, Exact data c)
-    (hn : (cs.map (·.n)).sum < 2^64) :
+theorem exact_trackOf (data : Nat → Row) (cs : List Clu) (h : ∀ c ∈ cs, Exact data c) :
     Exact data (trackOf cs) ∧ (trackOf cs).ids = (cs.map (·.ids)).flatten ∧
       (trackOf cs).n = (cs.map (·.n)).sum := by
   have := exact_foldl_update data cs Clu.empty (exact_empty data) h
-    (by show 0 + _ < _; omega)
   unfold trackOf
   refine ⟨this.1, ?_, ?_⟩
   · rw [this.2.1]; rfl
